@@ -776,8 +776,8 @@ type cinst struct {
 	afterShutdown bool
 	rec           h.Rec
 	st            string
-	offs   []string
-	types  []string
+	offs          []string
+	types         []string
 }
 
 func (ci *cinst) Body() {
@@ -1002,6 +1002,10 @@ func run(c *h.Check) {
 		for _, m := range durableCases() {
 			c.Violate("durable", m, m, map[string]any{"durable": true})
 		}
+		c.Count("evaluations", 1)
+		for _, m := range aliasCases() {
+			c.Violate("caller-memory", stripDigitsAll(m), m, map[string]any{"alias": true})
+		}
 		c.Count("evaluations", 3)
 		for _, m := range deadlineCases() {
 			c.Violate("deadline", stripDigitsAll(m), m, map[string]any{"deadline": true})
@@ -1085,6 +1089,7 @@ func replay(c *h.Check, rf *h.ReplayFile) []vrt.Violation {
 		CtxHist  *ctxHist `json:"ctxhist"`
 		LongRun  *longRun `json:"longrun"`
 		Deadline bool     `json:"deadline"`
+		Alias    bool     `json:"alias"`
 	}
 	json.Unmarshal(rf.Ops, &ops)
 	if ops.Sequence {
@@ -1095,6 +1100,11 @@ func replay(c *h.Check, rf *h.ReplayFile) []vrt.Violation {
 	if ops.Durable {
 		for _, m := range durableCases() {
 			vs = append(vs, vrt.Violation{Kind: "durable", Sig: m, Detail: m})
+		}
+	}
+	if ops.Alias {
+		for _, m := range aliasCases() {
+			vs = append(vs, vrt.Violation{Kind: "caller-memory", Sig: stripDigitsAll(m), Detail: m})
 		}
 	}
 	if ops.Deadline {
